@@ -566,7 +566,29 @@ Definition first_token (l : list Z) : list Z := fst (span_nonspace (skip_space l
 
 Definition mem_str (w : list Z) (ws : list (list Z)) : bool := existsb (list_eqb w) ws.
 
+(* the white-space separated words of a line, as successive `line_is >> word` return them *)
+Fixpoint words_aux (l : list Z) (cur : list Z) : list (list Z) :=
+  match l with
+  | [] => match cur with [] => [] | _ => [rev cur] end
+  | c :: t => if is_space c then (match cur with [] => words_aux t [] | _ => rev cur :: words_aux t [] end)
+              else words_aux t (c :: cur)
+  end.
+Definition words (l : list Z) : list (list Z) := words_aux l [].
+
+(* a word after the first one: only braces (what is left of a block whose contents were read), or a keyword *)
+Definition word_ok (allowed : list (list Z)) (w : list Z) : bool :=
+  forallb is_brace w || mem_str (to_lower w) allowed.
+
 Definition line_ok (allowed : list (list Z)) (l : list Z) : bool :=
+  let l' := strip_cr l in
+  match l' with
+  | [] => true
+  | _ => if forallb is_ws l' then true
+         else mem_str (to_lower (first_token l')) allowed && forallb (word_ok allowed) (tl (words l'))
+  end.
+
+(* the pinned check looked at the first word only *)
+Definition line_ok_pinned (allowed : list (list Z)) (l : list Z) : bool :=
   let l' := strip_cr l in
   match l' with
   | [] => true
